@@ -13,6 +13,7 @@ import (
 	"strconv"
 	"strings"
 	"sync"
+	"time"
 
 	"oss.terrastruct.com/d2/d2graph"
 	"oss.terrastruct.com/d2/d2layouts/d2dagrelayout"
@@ -217,8 +218,14 @@ var (
 )
 
 func c25Render(i int) string {
-	p := c25Progs[i]
 	c25RulerOnce.Do(func() { c25Ruler, _ = textmeasure.NewRuler() })
+	return c25RenderWith(i, c25Ruler)
+}
+
+// c25RenderWith renders with the given ruler. A textmeasure.Ruler caches measurements and is not documented as safe
+// for concurrent use, so concurrent renders get a ruler each (as separate invocations of the library would).
+func c25RenderWith(i int, ruler *textmeasure.Ruler) string {
+	p := c25Progs[i]
 	resolver := func(engine string) (d2graph.LayoutGraph, error) {
 		if engine == "elk" {
 			return func(ctx context.Context, g *d2graph.Graph) error { return d2elklayout.Layout(ctx, g, nil) }, nil
@@ -227,7 +234,7 @@ func c25Render(i int) string {
 	}
 	eg := p.Engine
 	ro := &d2svg.RenderOpts{Sketch: &p.Sketch}
-	d, _, err := d2lib.Compile(Bgctx, p.Src, &d2lib.CompileOptions{Ruler: c25Ruler, Layout: &eg, LayoutResolver: resolver}, ro)
+	d, _, err := d2lib.Compile(Bgctx, p.Src, &d2lib.CompileOptions{Ruler: ruler, Layout: &eg, LayoutResolver: resolver}, ro)
 	if err != nil {
 		return "ERR:" + err.Error()
 	}
@@ -274,8 +281,9 @@ func c25Concurrent(in string) eng.Res {
 					bad[t] = fmt.Sprintf("panic: %v", r)
 				}
 			}()
+			ruler, _ := textmeasure.NewRuler()
 			for rep := 0; rep < 2; rep++ {
-				if hashOf(c25Render(i)) != refs[i] {
+				if hashOf(c25RenderWith(i, ruler)) != refs[i] {
 					bad[t] = fmt.Sprintf("diagram %d differs from its fresh-process SVG", i)
 				}
 			}
@@ -343,7 +351,7 @@ func init() {
 		},
 	})
 	eng.Register(&eng.Check{
-		ID: "C25", Level: "model_checking", Workers: 8,
+		ID: "C25", Level: "model_checking", Workers: 8, HangBound: 900 * time.Second,
 		Pre: func() { freshRefs("C25", "c25-ref", len(c25Progs)) },
 		Rule: "histories: every ordered sequence of ≤2 (quick) / ≤3 (thorough) compile→layout→render runs over 16 diagrams chosen to touch every shared resource (dagre and ELK, sketch on/off, default and mono fonts, markdown, code, latex, class, sql_table, sequence, grid, near, 3d/multiple/patterns, icons, tooltips/links, themes and gradients, non-ASCII text, boards, arrowhead labels) in one process; every SVG of the history and one more repetition of the last are compared bytewise (sha256) with the same diagram rendered in a fresh process. schedules: the per-run source scan of the render closure lists every package-level variable written outside init (font registry behind a mutex, the JS runner's once); all pairs (thorough: triples of the first 8) are additionally rendered concurrently on real threads. states = histories, transitions = renders",
 		Assumptions: []string{"the schedule quantifier is decided only up to the independence argument of the scan plus the free-running concurrent pass; goja / chroma / goldmark internals are not instrumented", "varying GOMAXPROCS is not enumerated"},
